@@ -25,6 +25,8 @@ Definition p_bad := {| cb_id := 10; cb_fun := ROk |}.                           
 Definition g_add := {| cb2_id := 11; cb2_fun := int_op Z.add |}.                           (* |a, b| a + b *)
 Definition g_mix := {| cb2_id := 12; cb2_fun := int_op (fun a b => a * 2 + b)%Z |}.        (* |a, b| a * 2 + b *)
 Definition f_sep := {| cb_id := 13; cb_fun := fun _ => ROk (VInt 99) |}.                   (* || 99 *)
+Definition f_thr := {| cb_id := 15; cb_fun := on_int (fun z => if (z =? 4)%Z then RErr E_THROW else ROk (VInt z)) |}. (* throws on 4, else x *)
+Definition p_thr := {| cb_id := 16; cb_fun := on_int (fun z => if (z =? 1)%Z then RErr E_THROW else ROk (VBool true)) |}. (* throws on 1, else true *)
 Definition p_gt1 := {| cb_id := 14; cb_fun := on_int (fun z => ROk (VBool (1 <? z)%Z)) |}. (* |x| x > 1 *)
 
 (* ---- encoders: a value as a flat list of Z (prefix code) ---- *)
@@ -48,6 +50,7 @@ Definition enc_event (e : event) : list Z :=
   | EvCall id a => 12%Z :: Z.of_N id :: enc_value a
   | EvOut r => 13%Z :: enc_res r
   | EvNone => [14%Z]
+  | EvFail id => [15%Z; Z.of_N id]
   end.
 
 Definition enc_cres (r : cres) : list Z :=
